@@ -135,8 +135,11 @@ def run(cmd, cwd, timeout, mem_gb=8, stdout_path=None):
     t0 = time.time()
     so = open(stdout_path, 'w') if stdout_path else subprocess.PIPE
     try:
+        # temporary files of the tools (cbmc's CNF for an external SAT solver, compiler temporaries) go into the scratch directory of
+        # the run, which is removed with it - nothing is left under /tmp
+        env = dict(os.environ, TMPDIR=cwd) if cwd and os.path.isdir(cwd) else None
         p = subprocess.Popen(cmd, cwd=cwd, stdout=so, stderr=subprocess.PIPE,
-                             preexec_fn=_limits(mem_gb), text=True)
+                             preexec_fn=_limits(mem_gb), text=True, env=env)
         try:
             out, err = p.communicate(timeout=timeout)
         except subprocess.TimeoutExpired:
